@@ -16,7 +16,7 @@ var baseWeights = Weights{
 	"write": 14, "write-old": 2, "rewrite-same": 2, "touch": 1, "rmfile": 4, "rmdir": 2, "mkdir": 1,
 	"add": 12, "add-all": 3, "rm": 4, "commit": 10, "branch": 2, "branch-rename": 1, "branch-delete": 1, "branch-list": 1,
 	"switch": 2, "switch-c": 1, "reset": 3, "restore": 4, "update-ref": 1, "config": 1, "status": 3, "log": 1, "reflog": 1,
-	"ls-files": 1, "rev-parse": 1, "cat-file": 1, "write-tree": 1, "hash-object": 1, "junk": 2,
+	"ls-files": 1, "rev-parse": 1, "cat-file": 1, "write-tree": 1, "hash-object": 1, "junk": 2, "edit-same-size": 2, "fd-swap": 1, "twins": 1,
 }
 
 func weights(over Weights) Weights {
@@ -68,37 +68,37 @@ func init() {
 	checks["C03"] = histCheck("C03", []string{"C03.inv_run", "C03.inv_step", "C03.objects_monotone", "C03.put_monotone", "C03.puts_monotone", "C03.put_present", "C03.name_is_hash", "C03.branch_target_present", "C10.add_invalid", "C19.get_returns_requested"}, histRule+"; hostile stream: ids of blobs/trees given to update-ref, names with '/', '..', resets to zero-id reflog entries",
 		func(ctx *Ctx) *HistCfg {
 			return &HistCfg{Prop: "C03", Cases: tierN(ctx, 150, 1500), MinSteps: 10, MaxSteps: 40,
-				W:       weights(Weights{"update-ref": 5, "branch": 4, "branch-rename": 3, "reset": 6, "junk": 6, "switch-c": 2, "commit-inject": 4}),
+				W:       weights(Weights{"update-ref": 5, "branch": 4, "branch-rename": 3, "reset": 6, "junk": 6, "switch-c": 2, "commit-inject": 4, "fd-swap": 4, "restore": 6}),
 				Oracles: []HistOracle{orC03}, PreReset: true, AbsRefine: true}
 		})
-	checks["C04"] = histCheck("C04", []string{"C04.update_membership", "C04.update_perm", "C04.update_same_noop", "C04.delete_exact", "C04.eraseIdx_canonical", "C04.sortEntries_sorted", "C06.getEntry_correct", "C04.rm_exact", "C04.rmArgs_exact", "C04.rm_unknown_refused", "C04.addArgs_frame", "C04.add_file_staged", "C04.update_canonical", "C04.delete_frame"}, histRule,
+	checks["C04"] = histCheck("C04", []string{"C04.update_membership", "C04.update_perm", "C04.update_same_noop", "C04.delete_exact", "C04.eraseIdx_canonical", "C04.sortEntries_sorted", "C06.getEntry_correct", "C04.rm_exact", "C04.rmArgs_exact", "C04.rm_unknown_refused", "C04.addArgs_frame", "C04.add_file_staged", "C04.update_canonical", "C04.delete_frame", "C04.add_dir_staged", "C04.addFold_staged"}, histRule,
 		func(ctx *Ctx) *HistCfg {
 			return &HistCfg{Prop: "C04", Cases: tierN(ctx, 200, 2000), MinSteps: 8, MaxSteps: 30,
-				W:       weights(Weights{"add": 25, "rm": 12, "write": 20, "rmfile": 8, "rmdir": 4, "reset": 1, "junk": 0}),
+				W:       weights(Weights{"add": 25, "rm": 12, "write": 20, "rmfile": 8, "rmdir": 4, "reset": 1, "twins": 4, "junk": 0}),
 				Oracles: []HistOracle{orC04, orC06}, Idempotent: true}
 		})
 	checks["C02"] = histCheck("C02", []string{"C02.flatten_writeTree", "C02.build_ne_nil", "C02.subtrees_wellformed", "C05.readback_writeTree", "C05.walk_write", "C05.holds_storeAfter", "C01.get_put", "C02.commitCmd_ok", "C02.commit_readback", "C02.commitMake_ok", "C05.reset_readback", "C12.commit_parse_format"}, histRule,
 		func(ctx *Ctx) *HistCfg {
 			return &HistCfg{Prop: "C02", Cases: tierN(ctx, 200, 2000), MinSteps: 8, MaxSteps: 30,
-				W:       weights(Weights{"commit": 20, "add": 18, "add-all": 6, "junk": 0}),
+				W:       weights(Weights{"commit": 20, "add": 18, "add-all": 6, "twins": 3, "junk": 0}),
 				Oracles: []HistOracle{orC02}}
 		})
 	checks["C07"] = histCheck("C07", []string{"C07.diff_fromTree", "C07.diff_fromTree_build", "C07.fromTree_nil_iff", "C07.fold_ok", "C06.getEntry_correct", "C07.diff_nil_iff", "C07.diff_exact", "C07.getNode_build", "C07.isNew_build", "C07.getNodeAux_build", "C02.commit_refuses_noop", "C02.commit_accepts_diff"}, histRule,
 		func(ctx *Ctx) *HistCfg {
 			return &HistCfg{Prop: "C07", Cases: tierN(ctx, 200, 2000), MinSteps: 8, MaxSteps: 30,
-				W:       weights(Weights{"commit": 16, "status": 14, "add": 18, "rm": 6, "restore": 6, "junk": 0}),
+				W:       weights(Weights{"commit": 16, "status": 14, "add": 18, "rm": 6, "restore": 6, "fd-swap": 4, "junk": 0}),
 				Oracles: []HistOracle{orC07}, StatusAfterCommit: true}
 		})
 	checks["C08"] = histCheck("C08", []string{"C05.reset_readback", "C08.accepts", "C08.accepts_number", "C08.accepted_shape", "C08.position_agrees", "C08.out_of_range_refused", "C08.mode_table", "C08.resetCmd_ok", "C08.reset_soft", "C08.reset_refused", "C05.reset_readback"}, histRule+"; before every reset the `reflog` listing is sampled",
 		func(ctx *Ctx) *HistCfg {
 			return &HistCfg{Prop: "C08", Cases: tierN(ctx, 200, 2000), MinSteps: 10, MaxSteps: 35,
-				W:       weights(Weights{"commit": 16, "reset": 14, "rename-reset": 4, "switch": 3, "switch-c": 2, "rmdir": 4, "rmfile": 5, "junk": 0}),
+				W:       weights(Weights{"commit": 16, "reset": 14, "rename-reset": 4, "edit-same-size": 8, "switch": 3, "switch-c": 2, "rmdir": 4, "rmfile": 5, "junk": 0}),
 				Oracles: []HistOracle{orC08}, PreReset: true}
 		})
 	checks["C09"] = histCheck("C09", []string{"C09.restore_only_tracked", "C09.restore_named", "C09.restore_unknown_refused", "C06.isDir_iff", "C06.mem_byDir", "C06.getEntry_correct", "C04.update_membership", "C04.delete_exact", "C09.restoreStaged_exact", "C09.restoreStaged_unknown_refused", "C09.restoreIndexOne_spec", "C09.restoreIndexOne_refused_iff", "C09.rsFold_spec"}, histRule,
 		func(ctx *Ctx) *HistCfg {
 			return &HistCfg{Prop: "C09", Cases: tierN(ctx, 200, 2000), MinSteps: 10, MaxSteps: 35,
-				W:       weights(Weights{"restore": 20, "commit": 8, "rmfile": 8, "rmdir": 5, "write": 16, "add": 14, "rm": 4, "junk": 0}),
+				W:       weights(Weights{"restore": 20, "commit": 8, "rmfile": 8, "rmdir": 5, "write": 16, "add": 14, "rm": 4, "fd-swap": 4, "edit-same-size": 4, "twins": 5, "junk": 0}),
 				Oracles: []HistOracle{orC09}}
 		})
 	checks["C10"] = histCheck("C10", []string{"C03.inv_run", "C03.inv_step", "C10.getBranchPos_correct", "C10.add_ok", "C10.add_dup", "C10.add_invalid", "C10.delete_ok", "C10.delete_current_refused", "C10.delete_unknown_refused", "C10.update_ok", "C10.update_unknown_refused", "C10.rename_ok", "C10.rename_dup_refused", "C10.others_keep", "C10.updateRef_spec", "C10.create_refused", "C10.delete_refused", "C10.switch_spec"}, histRule,
@@ -111,7 +111,7 @@ func init() {
 	checks["C13"] = histCheck("C13", []string{"C13.status_ok", "C13.modified_iff", "C13.same_bytes_not_modified", "C13.deleted_iff", "C13.untracked_iff", "C01.encode_injective", "C06.getEntry_correct", "C17.nothing_hidden_without_ignore"}, histRule,
 		func(ctx *Ctx) *HistCfg {
 			return &HistCfg{Prop: "C13", Cases: tierN(ctx, 200, 2000), MinSteps: 8, MaxSteps: 30,
-				W:       weights(Weights{"status": 18, "write": 18, "rewrite-same": 6, "touch": 4, "rmfile": 8, "rmdir": 4, "mkdir": 2, "ignore": 5, "ignore-probe": 6, "commit": 8, "add": 12, "junk": 0}),
+				W:       weights(Weights{"status": 18, "write": 18, "rewrite-same": 6, "touch": 4, "rmfile": 8, "rmdir": 4, "mkdir": 2, "ignore": 5, "ignore-probe": 6, "commit": 8, "add": 12, "edit-same-size": 8, "junk": 0}),
 				Oracles: []HistOracle{orC13}, CommitFirst: true,
 				// names with the extensions the generated `*.ext` entries use, so that ignored files really
 				// exist next to files that sort before and after them
@@ -137,7 +137,7 @@ func init() {
 				W:       weights(Weights{"commit": 25, "log": 14, "add-all": 10, "write": 14, "write-old": 10, "reset": 4, "switch": 3, "switch-c": 3, "restore": 0, "rm": 1, "junk": 0}),
 				Oracles: []HistOracle{orC14}}
 		})
-	checks["C17"] = histCheck("C17", []string{"C17.matches_dir", "C17.matches_ext", "C17.nothing_hidden_without_ignore", "C17.meta_always", "C17.addArgs_no_meta", "C17.ignored_meta", "C17.add_skips_meta_arg"}, histRule,
+	checks["C17"] = histCheck("C17", []string{"C17.matches_dir", "C17.matches_ext", "C17.nothing_hidden_without_ignore", "C17.meta_always", "C17.addArgs_no_meta", "C17.ignored_meta", "C17.add_skips_meta_arg", "C17.status_never_lists_ignored", "C13.untracked_iff"}, histRule,
 		func(ctx *Ctx) *HistCfg {
 			return &HistCfg{Prop: "C17", Cases: tierN(ctx, 200, 2000), MinSteps: 8, MaxSteps: 30,
 				W:       weights(Weights{"ignore": 5, "ignore-probe": 5, "add": 20, "add-all": 10, "status": 10, "write": 20, "commit": 5, "reset": 2, "restore": 2, "junk": 0}),
@@ -150,7 +150,7 @@ func init() {
 		func(ctx *Ctx) *HistCfg {
 			return &HistCfg{Prop: "C18", Cases: tierN(ctx, 250, 3000), MinSteps: 5, MaxSteps: 40,
 				W:       weights(Weights{"junk": 14, "status": 5, "reflog": 4, "log": 3, "branch-rename": 4, "reset": 6, "rm": 6, "restore": 6}),
-				Oracles: []HistOracle{orC18}, NoIdent: 15, FreshPct: 35}
+				Oracles: []HistOracle{orC18}, NoIdent: 15, FreshPct: 35, JunkSweep: true}
 		})
 	checks["C20"] = histCheck("C20", []string{"C20.parse_render", "C20.add_get", "C20.local_overrides_global", "C20.global_fallback", "C20.isUserSet_iff"}, histRule,
 		func(ctx *Ctx) *HistCfg {
